@@ -13,6 +13,7 @@ From Cedar Require Export PERun.
 From Cedar Require Export PolicySetRun.
 From Cedar Require Export Batched.
 From Cedar Require Export TypecheckRun.
+From Cedar Require Export SchemaSynRun.
 
 Definition dispatchers : list (string -> list sexp -> option sexp) :=
   [ run_core
@@ -26,6 +27,7 @@ Definition dispatchers : list (string -> list sexp -> option sexp) :=
   ; run_pset
   ; run_batched
   ; run_typecheck
+  ; run_schema_syn
   ].
 
 Fixpoint dispatch (ds : list (string -> list sexp -> option sexp)) (cmd : string) (args : list sexp) : sexp :=
